@@ -74,11 +74,47 @@ theorem idxOK_filter_data {U D : List BlockAbs} {P : List BlockAbs} {s : State} 
         rw [lookup_hash hp]; exact hpd
       exact IdxOK.cons ih' hn (lookup_filter_none _ hf) hu (lookup_filter_some hr _ hp hpp) hw hh
 
+theorem stOf_filter (st : List (Hash × Status)) (p : Hash → Bool) (h : Hash) :
+    stOf (st.filter (fun q => p q.1)) h = if p h then stOf st h else {} := by
+  induction st with
+  | nil => simp [stOf]
+  | cons a r ih =>
+    obtain ⟨k, t⟩ := a
+    simp only [List.filter]
+    by_cases e : k = h
+    · subst e
+      cases hp : p k with
+      | true => simp only [hp, stOf_cons, if_true]
+      | false =>
+        simp only [hp]
+        rw [ih]; simp [hp]
+    · cases hp : p k with
+      | true =>
+        simp only [stOf_cons, e, if_false]
+        exact ih
+      | false =>
+        simp only []
+        rw [ih, stOf_cons]; simp [e]
+
+theorem status_restart (s : State) (k : Hash) :
+    (restart s).status k = if (s.status k).data then s.status k else {} := by
+  show stOf (s.st.filter (fun p => (s.status p.1).data)) k = _
+  exact stOf_filter s.st (fun h => (s.status h).data) k
+
 /-- a clean restart keeps the safety invariant, the active chain and the notification stream -/
 theorem restart_safe {U D : List BlockAbs} {s : State} (hs : SInv U D [] s) :
     SInv U D [] (restart s) ∧ (restart s).best = s.best ∧ (restart s).notes = s.notes := by
   refine ⟨?_, rfl, rfl⟩
-  have hst : ∀ k, (restart s).status k = s.status k := fun k => rfl
+  have hst : ∀ k, (s.status k).data = true → (restart s).status k = s.status k := by
+    intro k hk; rw [status_restart, hk]; rfl
+  have hdat : ∀ k, ((restart s).status k).data = (s.status k).data := by
+    intro k; rw [status_restart]
+    cases hk : (s.status k).data <;> simp [hk]
+  have hval : ∀ k, ((restart s).status k).valid = true → (s.status k).valid = true := by
+    intro k hv; rw [status_restart] at hv
+    cases hk : (s.status k).data with
+    | true => simpa [hk] using hv
+    | false => simp [hk] at hv
   have hlk : ∀ h n, lookup s.idx h = some n → (s.status h).data = true →
       lookup (restart s).idx h = some n := by
     intro h n hl hd
@@ -96,21 +132,24 @@ theorem restart_safe {U D : List BlockAbs} {s : State} (hs : SInv U D [] s) :
     exact this
   constructor
   · exact idxOK_filter_data hs
-  · exact hs.gData
+  · rw [hdat]; exact hs.gData
   · intro h hh
+    rw [hdat] at hh
     obtain ⟨n, hn⟩ := hs.dIdx h hh
     exact ⟨n, hlk h n hn hh⟩
   · intro h n hh hl h0
+    rw [hdat] at hh ⊢
     exact hs.dClosed h n hh (hlk' h n hl) h0
   · intro h n hh hl h0
+    rw [hdat] at hh
     exact hs.dD h n hh (hlk' h n hl) h0
   · intro h n hv hl
-    exact hs.vOk h n hv (hlk' h n hl)
+    exact hs.vOk h n (hval h hv) (hlk' h n hl)
   · show PathOK' (restart s) s.best
     have hbd := pathOK'_data hs.gData hs.path
     apply pathOK'_mono _ _ hs.path
     · intro h hh n hn; exact hlk h n hn (hbd h hh)
-    · intro h _ hd; exact hd
+    · intro h _ hd; rw [hdat]; exact hd
   · intro w hw; unfold Pool restart at hw; simp at hw
   · unfold Pool restart; simp
 
@@ -133,6 +172,139 @@ theorem run_restart_safe (ops1 ops2 : List Op) (hwf : WF (mentioned (ops1 ++ ops
   intro x
   rw [h2, h1, delivered_append]
   simp
+
+/-! ### the full invariant across a restart (blocks that were only pooled as orphans are forgotten) -/
+
+theorem iw_filter {U D : List BlockAbs} {P : List BlockAbs} {s : State} (hs : SInv U D P s) {h : Hash}
+    (hw : IW s.idx h) (hd : (s.status h).data = true) :
+    IW (s.idx.filter (fun n => (s.status n.blk.hash).data)) h := by
+  induction hw with
+  | @failed h n hl hc =>
+    refine IW.failed (lookup_filter_some hs.idx _ hl ?_) hc
+    show (s.status n.blk.hash).data = true
+    rw [lookup_hash hl]; exact hd
+  | @anc h n hl _ ih =>
+    have hl' : lookup (s.idx.filter (fun n => (s.status n.blk.hash).data)) h = some n := by
+      refine lookup_filter_some hs.idx _ hl ?_
+      show (s.status n.blk.hash).data = true
+      rw [lookup_hash hl]; exact hd
+    by_cases h0 : h = 0
+    · subst h0
+      have := idxOK_genesis_only hs.idx hl
+      subst this
+      exact IW.anc hl' (ih hd)
+    · exact IW.anc hl' (ih (hs.dClosed h n hd hl h0))
+
+theorem restart_inv {U D : List BlockAbs} {s : State} (hi : Inv U D [] [] s) :
+    Inv U (D.filter (fun b => (s.status b.hash).data)) [] [] (restart s) := by
+  have hs := sinv_of_inv hi
+  obtain ⟨hsr, _, _⟩ := restart_safe hs
+  have hdat : ∀ k, ((restart s).status k).data = (s.status k).data := by
+    intro k; rw [status_restart]
+    cases hk : (s.status k).data <;> simp [hk]
+  have hstd : ∀ k, (s.status k).data = true → (restart s).status k = s.status k := by
+    intro k hk; rw [status_restart, hk]; rfl
+  have hlk : ∀ h n, lookup s.idx h = some n → (s.status h).data = true →
+      lookup (restart s).idx h = some n := by
+    intro h n hl hd
+    show lookup (s.idx.filter (fun n => (s.status n.blk.hash).data)) h = some n
+    apply lookup_filter_some hs.idx _ hl
+    show (s.status n.blk.hash).data = true
+    rw [lookup_hash hl]; exact hd
+  have hlk' : ∀ h n, lookup (restart s).idx h = some n → lookup s.idx h = some n := by
+    intro h n hl
+    have hl' : lookup (s.idx.filter (fun n => (s.status n.blk.hash).data)) h = some n := hl
+    have hm := lookup_mem hl'
+    have hmem := (List.mem_filter.mp hm).1
+    have := idxOK_lookup_of_mem hs.idx hmem
+    rw [lookup_hash hl'] at this
+    exact this
+  have hgp : ∀ h, GoodPath (restart s) h → GoodPath s h := by
+    intro h hg
+    induction hg with
+    | gen => exact GoodPath.gen
+    | step h0 hl hd hc _ ih => exact GoodPath.step h0 (hlk' _ _ hl) (by rw [← hdat]; exact hd) hc ih
+  have hbd := pathOK_data hi.c.gData hi.c.path
+  refine ⟨⟨hsr.idx, hsr.gData, hsr.dIdx, hsr.dClosed, ?_, ⟨hsr.vOk, ?_⟩, ?_⟩, ?_, ?_, ?_, ?_, ?_⟩
+  · intro h n hh hl h0
+    have hh' : (s.status h).data = true := by rw [← hdat]; exact hh
+    obtain ⟨a, b⟩ := hi.c.dD h n hh' (hlk' h n hl) h0
+    refine ⟨List.mem_filter.mpr ⟨a, ?_⟩, b⟩
+    show (s.status n.blk.hash).data = true
+    rw [lookup_hash (hlk' h n hl)]; exact hh'
+  · intro h hk
+    have hd : (s.status h).data = true := by
+      cases hx : (s.status h).data with
+      | true => rfl
+      | false => rw [status_restart, hx] at hk; simp [Status.knownInvalid] at hk
+    rw [hstd h hd] at hk
+    exact iw_filter hs (hi.c.fs.kIW h hk) hd
+  · show PathOK (restart s) s.best
+    apply pathOK_mono _ _ _ hi.c.path
+    · intro h hh n hn; exact hlk h n hn (hbd h hh)
+    · intro h _ hd; rw [hdat]; exact hd
+    · intro h hh hv; rw [hstd h (hbd h hh)]; exact hv
+  · intro h n hl hg
+    have htip : (restart s).tip = s.tip := rfl
+    have hz := hi.c.path
+    have htd : (s.status s.tip).data = true := by
+      cases hb : s.best with
+      | nil => rw [hb] at hz; cases hz
+      | cons t r =>
+        have : s.tip = t := by unfold State.tip; rw [hb]; rfl
+        rw [this]; exact hbd t (by rw [hb]; simp)
+    have hw : (restart s).wsum (restart s).tip = s.wsum s.tip := by
+      rw [htip]
+      obtain ⟨m, hm⟩ := hi.c.dIdx s.tip htd
+      rw [wsum_eq hm, wsum_eq (hlk _ _ hm htd)]
+    rw [hw]
+    exact hi.max h n (hlk' h n hl) (hgp h hg)
+  · intro w hw; unfold Pool restart at hw; simp at hw
+  · unfold Pool restart; simp
+  · intro o ho; unfold restart at ho; simp at ho
+  · intro b hb _
+    left
+    rw [hdat]
+    exact (List.mem_filter.mp hb).2
+
+/-- blocks of a delivery history that are stored (not merely pooled or rejected) at its end -/
+def storedOf (ops : List Op) : List BlockAbs :=
+  (delivered ops).filter (fun b => ((run ops).status b.hash).data)
+
+/-- deliveries, a clean restart, more deliveries: the tip is the best chain of what survived the
+restart (the stored blocks) plus what was delivered afterwards -/
+theorem run_restart_isBest (ops1 ops2 : List Op) (hd1 : deliveryOnly ops1) (hd2 : deliveryOnly ops2)
+    (hwf : WF (mentioned (ops1 ++ ops2)))
+    (hev : (runFrom (restart (run ops1)) ops2).evicted = []) :
+    IsBest (storedOf ops1 ++ delivered ops2) (runFrom (restart (run ops1)) ops2).tip := by
+  have hm1 : ∀ x ∈ mentioned ops1, x ∈ mentioned (ops1 ++ ops2) := by
+    intro x hx; rw [mentioned_append]; exact List.mem_append_left _ hx
+  have hm2 : ∀ x ∈ mentioned ops2, x ∈ mentioned (ops1 ++ ops2) := by
+    intro x hx; rw [mentioned_append]; exact List.mem_append_right _ hx
+  obtain ⟨D1, h1, hi1⟩ := run_inv_U hwf ops1 hd1 hm1
+  have hir := restart_inv hi1
+  have hDU : ∀ x ∈ D1.filter (fun b => ((run ops1).status b.hash).data), x ∈ mentioned (ops1 ++ ops2) := by
+    intro x hx
+    exact hm1 x (delivered_sub_mentioned ops1 x ((h1 x).mp (List.mem_filter.mp hx).1))
+  obtain ⟨D2, h2, hi2⟩ := run_spec hwf ops2 _ (restart (run ops1)) hd2 hm2 hDU hir
+  have hDU2 : ∀ x ∈ D2, x ∈ mentioned (ops1 ++ ops2) := by
+    intro x hx
+    rcases (h2 x).mp hx with h | h
+    · exact hDU x h
+    · exact hm2 x (delivered_sub_mentioned ops2 x h)
+  have hb := inv_isBest hwf hDU2 hi2 hev
+  apply isBest_congr _ hb
+  intro x
+  rw [h2]
+  unfold storedOf
+  simp only [List.mem_append, List.mem_filter]
+  constructor
+  · rintro (⟨a, b⟩ | c)
+    · exact Or.inl ⟨(h1 x).mp a, b⟩
+    · exact Or.inr c
+  · rintro (⟨a, b⟩ | c)
+    · exact Or.inl ⟨(h1 x).mpr a, b⟩
+    · exact Or.inr c
 
 end Lemmas
 end BV.C02
